@@ -143,6 +143,11 @@ func completeVariable(p np.Path, ev *eval.Evaler, cfg Config) (*context, []RawIt
 	if !ok || primary.Type != parse.Variable {
 		return nil, nil, errNoCompletion
 	}
+	if parse.SourceText(primary) != "$"+primary.Value {
+		// The name is written quoted, so offsets into the name are not
+		// offsets into the source text.
+		return nil, nil, errNoCompletion
+	}
 	sigil, qname := eval.SplitSigil(primary.Value)
 	ns, nameSeed := eval.SplitIncompleteQNameNs(qname)
 	// Move past "$", "@" and "<ns>:".
